@@ -2,12 +2,15 @@
 (* X07 - records of MapToMolecule.run_molecule (and, where the same meta-molecule went on through ApplyLinks and             *)
 (* ApplyModifications, of the whole gen_params pipeline) taken from the repository's OWN test suite by                       *)
 (* harness/pytest_trace_plugin_params.py.  FFTrace is used unchanged (base = I-layer state after MapToMolecule = PBase,       *)
-(* final = I-layer state = PFinal with the observed link applications); two verdicts are added:                               *)
+(* final = I-layer state = PFinal with the observed link applications); three verdicts are added:                             *)
 (*   dom    whether the recorded input lies inside the domain FFMap states (DomOK) - the tests also feed inputs that the     *)
 (*          code must refuse (a multi-residue block without from_itp labels, a fragment that lacks a residue); such records   *)
 (*          are counted as "outside the modelled domain" by the driver, never forced into the specification                  *)
 (*   edges  the atom edges of the freshly mapped molecule = the I-layer's medges = the P-layer's PBase.edges                  *)
 (*          (Base_Inv compares them at design level; FFTrace itself does not look at the observed edges)                      *)
+(*   excl   the exclusion distance of the freshly mapped molecule and the per-atom "exclude" tags = the I-layer's molN and    *)
+(*          atoms[g].ex after TagExclusions / AddBlock (mixed exclusion distances: every block lowered to the minimum, the    *)
+(*          atoms tagged with the distance their block prescribes; -1 = no tag) - the state C14_Inv is proved from            *)
 EXTENDS FFTrace
 
 ObsEdgeSet(o) == {{o.edges[j][1], o.edges[j][2]} : j \in DOMAIN o.edges}
@@ -20,6 +23,14 @@ EdgeVerdict ==
          ELSE IF E # PBase(inp).edges THEN "base/P:edges"
          ELSE IF Len(o.edges) # Cardinality(E) THEN "base:duplicate-edge"
          ELSE "ok"
+ExclTagVerdict ==
+  LET o == Obs.base IN
+    IF ~DomOK(inp) THEN "out-of-domain"
+    ELSE IF err # "" THEN "model-error:" \o err
+    ELSE IF o.nrexcl # molN THEN "base/I:nrexcl"
+    ELSE IF Len(o.ex) # Len(atoms) \/ \E g \in DOMAIN atoms : o.ex[g] # atoms[g].ex THEN "base/I:exclude-tags"
+    ELSE "ok"
 MarkDom == (pc = "match") => Rec("dom", IF DomOK(inp) THEN "in" ELSE "out")
 MarkEdges == (pc = "links") => Rec("edges", IF Obs.hasBase THEN EdgeVerdict ELSE "no-observation")
+MarkExcl == (pc = "links") => Rec("excl", IF Obs.hasBase THEN ExclTagVerdict ELSE "no-observation")
 =============================================================================
